@@ -391,3 +391,17 @@ impl FileDesc {
         }
     }
 }
+
+#[cfg(feature = "verif-hooks")]
+impl FileDesc {
+    pub(crate) fn verif_snapshot(&self) -> crate::verif::SenderFileSnapshot {
+        let info = self.transfer_info.read().unwrap();
+        crate::verif::SenderFileSnapshot {
+            toi: self.toi,
+            transferring: info.transferring,
+            transfer_count: info.transfer_count,
+            total_nb_transfer: info.total_nb_transfer,
+            published: self.is_published(),
+        }
+    }
+}
